@@ -27,7 +27,13 @@ RULE = ("machine + game-mode configuration drawn per case (1-3 balls per game, u
         "after their persisted device states had diverged, and a player came back to a second ball; distinct by case "
         "hash.  suite 'ext' (validation only, not fed to the model): the same games with two achievements (all "
         "control events, random restart_on_next_ball_when_started / enable_on_next_ball_when_enabled / start_enabled) and "
-        "a running timer added to the game mode; non-trivial additionally needs >= 3 distinct achievement readings")
+        "a running timer added to the game mode, plus a second game mode m2 that only runs when a player starts it "
+        "(optionally restart_on_next_ball) with a timer (timed pause, add, start, stop), a shot with persist_enable: false "
+        "and machine-wide control_events, a persisted shot with control_events, a persisted accrual (machine-wide step "
+        "handlers), a non-persisted and a persisted counter (control events add/subtract/jump); hand-over scenarios "
+        "are injected: a timed pause or device progress right before the ball ends, then 3-6 operations of the next "
+        "player without m2 (control events, step events, waiting).  non-trivial = >= 3 distinct achievement readings "
+        "and a hand-over out of a running m2 followed by >= 3 operations of the next player without m2")
 TRUSTED_BASE = [
     "Coq 8.16.1 kernel (coqc), vm_compute for evaluating the model in the correspondence run; no native_compute",
     "axioms: none (every Print Assumptions is 'Closed under the global context')",
@@ -48,10 +54,14 @@ ASSUMPTIONS = [
     "variable_player 'add' is only used on numeric variables (adding to a str variable raises TypeError in MPF)",
     "floats stay on the 1/8 grid (exact binary arithmetic); extra_balls is only ever incremented by the config",
     "game modes stop at ball end (MPF rejects game_mode + stop_on_ball_end: false at config time)",
-    "not modelled in Coq: achievements and timers (their per-player isolation, configured restore and event chains are "
-    "validated by the oracle-only suite 'ext'; a timer's tick variable is re-initialised at every mode start by "
-    "design), sequences, shot groups, shots with persist_enable: false, non-persisted logic blocks, logic_block_timeout, "
-    "variable_player 'player:' targeting",
+    "not modelled in Coq, validated by the oracle-only suite 'ext': achievements, timers (a timer's tick variable is "
+    "re-initialised at every mode start by design), a second game mode that is not running for the next player, shots "
+    "with persist_enable: false, non-persisted logic blocks, machine-wide control events.  Not covered at all: "
+    "sequences, shot groups, logic_block_timeout, persist_enable: false on devices other than shots, variable_player "
+    "'player:' targeting",
+    "suite 'ext': counter control events (add/subtract/jump) are delivered only while mode m2 is really running, "
+    "except for one deliberate delivery in ~8% of the cases that reproduces the recorded defect "
+    "counter-control-event-without-state (repair proposed in fixes/C11-counter-control-events-without-state.patch)",
 ]
 DESIGN_REF = "DESIGN.md section 3, C11"
 TECHNIQUE = "Coq proof over an executable Gallina model + differential correspondence (vm_compute) + direct trace oracle"
